@@ -15,7 +15,7 @@ import traceback
 
 VERIF = os.path.dirname(os.path.dirname(os.path.abspath(__file__)))
 REPO = os.environ.get("VT_REPO", "/repo")           # set by run.py before tracklib is imported
-CASE_TIMEOUT_S = 120                                  # non-termination guard, not a speed test
+CASE_TIMEOUT_S = 120                                  # non-termination guard in CPU seconds of the case (never wall clock: load must not matter)
 
 
 # ----------------------------------------------------------------------------------------------
@@ -284,8 +284,8 @@ def run_body(sub, case):
     """Run body on one case under the sink and the non-termination guard.
     Returns (info, None) or (None, (key, msg))."""
     reset_globals()
-    old = signal.signal(signal.SIGALRM, _alarm)
-    signal.setitimer(signal.ITIMER_REAL, CASE_TIMEOUT_S)
+    old = signal.signal(signal.SIGPROF, _alarm)
+    signal.setitimer(signal.ITIMER_PROF, CASE_TIMEOUT_S)
     try:
         with quiet():
             info = sub.body(case)
@@ -295,7 +295,7 @@ def run_body(sub, case):
     except HarnessError:
         raise
     except _CaseTimeout:
-        return None, ("hang", "case did not finish within %d s" % CASE_TIMEOUT_S)
+        return None, ("hang", "case did not finish within %d s of CPU time" % CASE_TIMEOUT_S)
     except KeyboardInterrupt:
         raise
     except BaseException as e:          # includes SystemExit from tracklib's exit() calls
@@ -308,8 +308,8 @@ def run_body(sub, case):
             sub.name, fn, json.dumps(jsonable(case))[:2000],
             "".join(traceback.format_exception(type(e), e, e.__traceback__))))
     finally:
-        signal.setitimer(signal.ITIMER_REAL, 0)
-        signal.signal(signal.SIGALRM, old)
+        signal.setitimer(signal.ITIMER_PROF, 0)
+        signal.signal(signal.SIGPROF, old)
 
 
 class ShardRunner:
